@@ -21,12 +21,16 @@ CHECKS = {
     'C02': dict(ref='5/C02', text='Callback contract decided per step: dispatch for every role/leader pointer (CB1), queue-full (CBQ), forwarded replies and leader change (CB3), apply-time callbacks with symbolic recorded terms (R8), raising commands (X1), sync wrapper (CB4).'),
     'C03': dict(ref='5/C03', text='Election safety as step obligations: vote-once / up-to-date / term discipline (E1), election start (E3), win only with a strict majority of current-term grants (E4), for cluster sizes 2-5 with both parities; relational three-node composition in the thorough tier.'),
     'C04': dict(ref='5/C04', text='Commit rule and monotone indices: R7 (majority of voters and current-term entry at the very step the commit index moves), R6 (matchIndex only from success replies), R1/RS (follower commit only over verified entries, never backwards), R8 (applied index).'),
+    'C05': dict(ref='5/C05', text='Claimed part = the catch-up clause and the step-level liveness lemmas: one replication round from any Log-Matching-related pair of logs either fully matches the follower or strictly decreases nextIndex (PG, two real objects), rejection hints (R1), elections start when due (E3), the command queue drains in one dispatch (CB1), batches/chunks/snapshot chunks cover everything pending (A2, A3, S4), commit rule completeness (R7). NOT claimed: election convergence within a bounded number of timeouts and SUCCESS-after-heal over whole fault histories (long fair runs of randomised timers over the whole cluster are beyond bounded symbolic execution).'),
+    'C06': dict(ref='5/C06', text='Journaled restart: acknowledged entries are on the (symbolic) disk at the instant the acknowledgement leaves (JR2), start-up reconciliation of journal and dump (JR3), journal-only restart re-applies the committed prefix once (JR4), kill between any two primitive writes of a journal operation / dump write (J3, S5), long tail drops (J5), what the dump holds (S12). Known findings F-HEADDROP, F-DUMPCLEAR, F-JOURNALONLY are reported as KNOWN-FINDING. Outside: fsync/page-cache durability, torn single writes, the fork serializer.'),
+    'C07': dict(ref='5/C07', text='Vote/term across a restart: real node grants in a symbolic term, is restarted on its (symbolic-disk) journal and receives a second request of the same term (RST) - violated on the unchanged tree for every term >= 1 (known finding F-VOTEPERSIST: term and vote are not persisted); E1 keeps any other way of granting twice in a term visible.'),
     'C08': dict(ref='5/C08', text='File journal vs. in-memory journal on a symbolic disk: every operation sequence of bounded length with symbolic record sizes (J1, incl. file growth and close+reopen through the real parse loop) and kill-safety with a crash cut between any two primitive writes of one operation (J3).'),
     'C09': dict(ref='5/C09', text='Snapshots: what compaction captures and what loading restores, with symbolic indices/terms/user state, applies between snapshot and trim, member set and consumers (S12, B2); chunked transfer with symbolic image and chunk sizes, interrupted by a disconnect or a newer snapshot at a symbolic chunk position (S4); kill at every primitive of the dump write / incoming transfer (S5); code version after load (V5). The fork variant is outside.'),
     'C10': dict(ref='5/C10', text='Membership: leader-side gate and one-at-a-time with the no-op and an earlier membership entry at symbolic positions (M1), member set = fold of the log across append / truncation / re-send / apply on followers (M3), admin entry points (MA), member set in snapshots (S12).'),
     'C11': dict(ref='5/C11', text='Arguments of any size: packing with every mix of positional/keyword/control arguments (A1), size batching partitions nextIndex..lastIdx (A2), chunked transfer of a command of symbolic length n >= batch size through the real sender and the real follower handler (A3), journal growth (J1) and TCP framing of any length (T1).'),
     'C12': dict(ref='5/C12', text='Raising replicated methods (symbolic predicate decides which commands raise) through the real apply loop: no escape, no stall, callbacks once (X1) - the unchanged tree violates this (known finding F-RAISE); clauses that hold regardless keep other violations visible.'),
     'C13': dict(ref='5/C13', text='TCP framing through two real TcpConnection objects on a symbolic byte stream: symbolic frame lengths, receive-buffer size, short writes/EAGAIN and fragmentation (T1), corrupted length field (any 32-bit value) or payload (T2), disconnect (T3).'),
+    'C14': dict(ref='5/C14', text='Claimed at step level over the real TCPTransport + TcpConnection on symbolic sockets and clocks: who dials (N1), incoming handshake, stranger rejection and source attribution incl. removed members (N2), unique identities of read-only peers under join/leave/re-join (N2r), dropNode (N3), reconnect throttle with symbolic times (N4), read timeout and truthful send() (N5), reuse of a dialling connection object (T4). NOT claimed: the whole-run statement "exactly one working connection within bounded time after any fault sequence" (long fault schedules on two event loops).'),
     'C15': dict(ref='5/C15', text='Every public battery method against the Python container it mimics for all operation sequences of bounded length with symbolic elements/positions/values (B1) and snapshot round trip of every battery (B2).'),
     'C16': dict(ref='5/C16', text='Replicated locks with unbounded real-valued clocks: mutual exclusion across replicas that lag by up to k commands (K1), late-acquisition rule of tryAcquire (K2), expiry / release / prolongation semantics (K3).'),
     'C17': dict(ref='5/C17', text='Code versions: id stability over generated class shapes (V1, exhaustive enumeration), dispatch to the greatest version <= the symbolic enabled version (V2), setCodeVersion validation (V3), unsupported VERSION entry inside a committed batch (V4), name table after loading a snapshot (V5).'),
